@@ -2,11 +2,13 @@
 from vlib.gen_traj import f2b, PINF, NINF
 
 PID = "C12"
-LEAN_MODULE = "Sb.Properties.C12Total"
+LEAN_MODULE = "Sb.Properties.C12RoundTrip"
 THEOREMS = [
     "Sb.C12.phases_land", "Sb.C12.phases_goto_keeping_altitude", "Sb.C12.phases_goto_with_altitude_neck",
     "Sb.C12.neck_is_vertical", "Sb.C12.invalid_action", "Sb.C12.runPhases_invalid", "Sb.C12.runPhases_bad_duration", "Sb.C12.msec_invalid",
     "Sb.C12.msec_negative", "Sb.C12.hold_exact", "Sb.C12.leg_exact", "Sb.C16.appendLineAux_as_segments",
+    "Sb.C12.convert_roundtrip", "Sb.C12.convert_passes_line", "Sb.C12.runPhases_as_calls", "Sb.C12.convert_as_calls", "Sb.C12.sample_converts",
+    "Sb.C16.builder_roundtrip", "Sb.C16.passes_through_appendLine",
     "Sb.C12.convert_total", "Sb.C12.runPhases_total", "Sb.C12.msec_lt", "Sb.C16.holdForAux_segments", "Sb.C16.holdChunks_le",
 ]
 NAN = 0x7FC00000
